@@ -372,6 +372,7 @@ Section Frame.
     - apply keeps_set_key.
     - apply keeps_del_key.
     - kp. apply keeps_perform_group.
+    - kp; apply keeps_some_or_fail.
     - kp.
   Qed.
 
